@@ -4,6 +4,7 @@
      Q <id> getval <0|1> <enc>  -> same for ILLget_value
      Q <id> print <p/q>      -> A <id> <enc>
      Q <id> lpwrite + SLP block            -> A <id> <enc line>*       (IO/LpWrite.write_lp)
+     Q <id> mpswrite + MLP block           -> A <id> <enc line>*       (IO/MpsWrite.write_mps)
      Q <id> lpread <0|1> <enc text> + (NONE | SLP block of the library's result) -> A <id> <OK|ERR|FLT|FUEL> <agree> <ncols> <nrows>
 *)
 open Model
@@ -98,6 +99,27 @@ let read_slp_hdr ic hdr : llp =
       l_objname = chars_of_string (dec on); l_intmarker = (im = "1"); l_cols = cols; l_rows = rows }
   | _ -> failwith "SLP header expected"
 
+(* MLP <max> <probname> <objname> <intmarker> <rangeval> <ncols> <nrows> ; MC <name> <obj> <lo> <up> <int> <k> (<rowname> <coef>)* ;
+   MR <name> <sense> <rhs> <range>      (column-wise, names %-encoded) *)
+let read_mlp_hdr ic hdr : mlp =
+  match hdr with
+  | [ "MLP"; mx; pn; on; im; rv; nc; nr ] ->
+    let nc = int_of_string nc and nr = int_of_string nr in
+    let cols = List.init nc (fun _ -> match next_tokens ic with
+      | Some ("MC" :: nm :: o :: l :: u :: it :: _k :: rest) ->
+        let rec ents = function
+          | i :: v :: r -> (chars_of_string (dec i), q_raw v) :: ents r
+          | [] -> [] | _ -> failwith "bad MC line" in
+        { mc_name = chars_of_string (dec nm); mc_obj = q_raw o; mc_lo = q_raw l; mc_up = q_raw u; mc_int = (it = "1"); mc_ent = ents rest }
+      | _ -> failwith "MC line expected") in
+    let rows = List.init nr (fun _ -> match next_tokens ic with
+      | Some [ "MR"; nm; sn; rhs; rg ] ->
+        { mr_name = chars_of_string (dec nm); mr_sense = sense_of sn; mr_rhs = q_raw rhs; mr_range = q_raw rg }
+      | _ -> failwith "MR line expected") in
+    { m_probname = chars_of_string (dec pn); m_max = (mx = "1"); m_objname = chars_of_string (dec on);
+      m_intmarker = (im = "1"); m_rangeval = (rv = "1"); m_cols = cols; m_rows = rows }
+  | _ -> failwith "MLP header expected"
+
 let show_bstmt b = match b with
   | BFix v -> "FIX " ^ show_q v | BFreeS -> "FREE" | BLo v -> "LO " ^ show_q v
   | BUp v -> "UP " ^ show_q v | BLoUp (l, u) -> "LOUP " ^ show_q l ^ " " ^ show_q u
@@ -160,6 +182,10 @@ let () =
            (* the lines ILLwrite_lp prints for the problem (after name repair), %-encoded *)
            let p = (match next_tokens ic with Some h -> read_slp_hdr ic h | None -> failwith "SLP expected") in
            let ls = write_lp !sentinel p in
+           Printf.printf "A %s %s\n" id (String.concat " " (List.map (fun l -> enc (string_of_chars l)) ls))
+         | "mpswrite", [] ->
+           let p = (match next_tokens ic with Some h -> read_mlp_hdr ic h | None -> failwith "MLP expected") in
+           let ls = write_mps !sentinel p in
            Printf.printf "A %s %s\n" id (String.concat " " (List.map (fun l -> enc (string_of_chars l)) ls))
          | "lpread", [ v; t ] ->
            (* model reader on the text; then NONE (the library rejected the file) or the SLP block of what the library delivered.
